@@ -262,6 +262,15 @@ def run_once(cfg, prefix):
         inp = iter(elems)
     elif cfg.get('input') == 'map':
         inp = map(lambda v: v, elems)
+    if cfg.get('input') == 'viewlist':
+        # a list subclass whose ITERATION delivers other objects than its stored slots (raw cells stored, parsed values delivered)
+        class ViewList(list):
+            def __iter__(self_):
+                return (v[1] for v in list.__iter__(self_))
+
+            def __getitem__(self_, k):
+                raise TypeError('ViewList is meant to be iterated')
+        inp = ViewList([('raw', v) for v in elems])
     extra = {}
     if cfg.get('total'):
         extra['total'] = len(elems)          # the documented size hint for the progress bar, given exactly
@@ -271,6 +280,19 @@ def run_once(cfg, prefix):
         import pandas as pd
         inp = {'np': lambda: np.array(xs, dtype='int64'), 'series': lambda: pd.Series(xs, dtype='int64'), 'index': lambda: pd.Index(xs),
                'dict': lambda: dict.fromkeys(xs), 'range': lambda: range(xs[0], xs[0] + len(xs)) if xs else range(0)}[cfg['input']]()
+    fun = ctl.f
+    how = cfg.get('callable', 'method')
+    if how == 'partial':
+        import functools
+        fun = functools.partial(ctl.f)               # no __name__
+    elif how == 'instance':
+        class Mapper:                                 # callable object, no __name__
+            def __call__(self_, x):
+                return ctl.f(x)
+        fun = Mapper()
+    elif how == 'itemgetter_chain':
+        import functools
+        fun = functools.partial(lambda k, x: ctl.f(x), 'k')
     ctl.thread.start()
     exc = None
     result = None
@@ -283,13 +305,13 @@ def run_once(cfg, prefix):
     signal.alarm(HANG_LIMIT)
     try:
         if cfg['impl'] == 'threading':
-            result = tthreading.parallel_map(ctl.f, inp, threads=threads, sort=cfg.get('sort', True),
+            result = tthreading.parallel_map(fun, inp, threads=threads, sort=cfg.get('sort', True),
                                              use_tqdm=cfg.get('tqdm', False), chunksize=chunksize, **extra)
         elif cfg['impl'] == 'starmap':
-            result = tthreading.parallel_starmap(lambda a, b: ctl.f(a), [(x, 0) for x in xs], threads=threads,
+            result = tthreading.parallel_starmap(lambda a, b: fun(a), [(x, 0) for x in xs], threads=threads,
                                                  sort=cfg.get('sort', True), use_tqdm=False, chunksize=chunksize, **extra)
         else:
-            result = titer.parallel_map(ctl.f, inp, threads=threads, **extra)
+            result = titer.parallel_map(fun, inp, threads=threads, **extra)
     except HangTimeout:
         hung = True
     except BaseException as e:  # noqa
@@ -327,6 +349,8 @@ def judge(cfg, ob, res: CaseResult):
     res.count('input_kind_' + cfg.get('input', 'list'))
     if cfg.get('none_at') is not None:
         res.count('inputs_with_a_none_element')
+    if cfg.get('callable', 'method') != 'method':
+        res.count('runs_with_callables_without_a_name')
     if cfg.get('total'):
         res.count('runs_with_total_hint')
         if cfg.get('input') in ('gen', 'iter', 'map'):
@@ -540,10 +564,11 @@ def cases(tier, seed):
                 odd.append({'impl': impl, 'n': n, 'threads': threads, 'chunk': 2, 'sort': True, 'policy': 'reverse', 'pseed': 1, 'input': kind,
                             'tqdm': False, 'base0': True})
         # the size hint, on inputs that have no length of their own, around the chunk size
-        for kind in ('gen', 'iter', 'map', 'list', 'tuple', 'range'):
+        for kind in ('gen', 'iter', 'map', 'list', 'tuple', 'range', 'viewlist'):
             for n, chunk, threads in ((3, 1000, 2), (4, 4, 3), (4, 3, 2), (5, 2, 4), (0, 3, 2), (1, 1, 2), (6, 1000, 1)):
                 odd.append({'impl': impl, 'n': n, 'threads': threads, 'chunk': chunk, 'sort': rng.random() < 0.7, 'policy': 'random', 'pseed': n, 'input': kind,
-                            'tqdm': impl == 'threading' and rng.random() < 0.5, 'total': True, 'out': rng.choice(['tuple', 'array', 'hostile'])})
+                            'tqdm': impl == 'threading' and rng.random() < 0.5, 'total': kind != 'viewlist', 'out': rng.choice(['tuple', 'array', 'hostile']),
+                            'callable': rng.choice(['method', 'partial', 'instance'])})
     for i in range(0, len(odd), 12):
         yield {'kind': 'runs', 'cfgs': odd[i:i + 12]}
     # 3. random / adversarial orders on larger inputs
@@ -559,7 +584,8 @@ def cases(tier, seed):
         n = min(n, 40)
         cfg = {'impl': impl, 'n': n, 'threads': threads, 'chunk': chunk,
                'sort': rng.random() < 0.7, 'policy': rng.choice(['random', 'reverse', 'rotate', 'random']),
-               'pseed': rng.randrange(1 << 30), 'input': rng.choice(['list', 'list', 'gen', 'tuple', 'np', 'series', 'index', 'dict', 'range', 'iter', 'map']),
+               'pseed': rng.randrange(1 << 30), 'input': rng.choice(['list', 'list', 'gen', 'tuple', 'np', 'series', 'index', 'dict', 'range', 'iter', 'map', 'viewlist']),
+               'callable': rng.choice(['method', 'method', 'partial', 'instance', 'itemgetter_chain']),
                'tqdm': rng.random() < 0.2, 'out': rng.choice(['tuple', 'tuple', 'exc', 'none', 'dict', 'falsy', 'array', 'series', 'hostile']),
                'total': rng.random() < 0.3}
         if impl == 'starmap':
